@@ -6,6 +6,7 @@ on cached objects; object identity (`is`) is checked against a reference model o
 Two concurrent iterators run under the deterministic scheduler.
 """
 import contextlib
+import os
 import re
 
 from vlib import harness
@@ -658,6 +659,32 @@ def run_pid_exists_faults(acc):
                 finally:
                     w.__exit__(None, None, None)
                 acc.case(dict(kind="pid_exists_fault", target=target, how=how, k=k), True, viols)
+    # the status file cannot be consulted (refused: hidepid / an LSM; or served without a Tgid line): the documented fall-back is
+    # the listing - True exactly for listed PIDs, False for thread ids and free numbers, whatever stat() says about /proc/<n>
+    for target, want in ((7, True), (9, True), (100, False), (55, False)):
+        for how in ("EACCES", "EPERM", "EIO", "no_tgid_line"):
+            w = world()
+            viols = []
+            try:
+                if how == "no_tgid_line":
+                    for pr_ in w.t.procs.values():
+                        pr_.raw_status = lambda p_: b"Name:\tx\nState:\tS (sleeping)\nPid:\t%d\nPPid:\t1\n" % p_.pid
+                else:
+                    import errno as _errno
+                    code = getattr(_errno, how)
+                    w.vk.rules.append(lambda kind, path, code=code: OSError(code, os.strerror(code), path)
+                                      if kind == "open" and path.endswith("/status") else None)
+                acc.count("pid_exists_with_unusable_status_file")
+                try:
+                    got = ps.pid_exists(target)
+                except Exception as e:  # noqa: BLE001
+                    viols.append((f"pid_exists_exception:{type(e).__name__}:status_file_unusable", f"pid_exists({target}) with {how}: {e!r}"))
+                else:
+                    if got is not want:
+                        viols.append(("pid_exists_wrong:status_file_unusable", f"pid_exists({target}) -> {got!r} want {want} ({how}; listed {sorted(w.t.procs)}, 100 is a thread of 7)"))
+            finally:
+                w.__exit__(None, None, None)
+            acc.case(dict(kind="pid_exists_fault", target=target, how=how, k=-1), True, viols)
 
 
 def run_probe_race(acc):
